@@ -49,3 +49,16 @@ Proof.
     do 5 (destruct t as [|t]; [reflexivity|]). lia.
   - vm_compute. discriminate.
 Qed.
+
+(* dense time: the tick semantics is stable under extension of the signals after e *)
+From Coq Require Import ZArith.
+From RV Require Import Dense DenseSem DenseLaws.
+Theorem C16_dense :
+  forall (VS : Val) (AR : Arith VS) (pk : formula -> formula -> pkind)
+         (W1 W2 : list dsig) (tend1 tend2 e : Z) (p : formula),
+    (forall x, start (nth x W2 []) = start (nth x W1 [])) ->
+    (forall x t, (t <= e)%Z -> den (nth x W2 []) t = den (nth x W1 []) t) ->
+    dbounded p = true ->
+    forall t, (t + dhor p <= e)%Z -> rhoZ AR pk W2 tend2 p t = rhoZ AR pk W1 tend1 p t.
+Proof. exact (fun VS AR pk W1 W2 tend1 tend2 e p => rhoZ_extend AR pk W1 W2 tend1 tend2 e p). Qed.
+Print Assumptions C16_dense.
